@@ -193,19 +193,33 @@ func configInt(v interface{}) (int, bool) {
 	return 0, false
 }
 
+// Documented defaults for gzip options that are left out of the configuration
+const (
+	defaultGzipLevel   = 5
+	defaultGzipMinSize = 1024
+)
+
 func parseGzipConfig(cfg map[string]interface{}) (int, int, []string, error) {
-	level, ok := configInt(cfg["level"])
-	if !ok {
-		return 0, 0, nil, fmt.Errorf("expected level for gzip config")
+	level := defaultGzipLevel
+	if raw, present := cfg["level"]; present {
+		configured, ok := configInt(raw)
+		if !ok {
+			return 0, 0, nil, fmt.Errorf("expected level for gzip config")
+		}
+		level = configured
 	}
 	// Allow -1 (DefaultCompression), 0 (NoCompression), or 1-9
 	if level < -1 || level > 9 {
 		return 0, 0, nil, fmt.Errorf("compression level must be between -1 and 9, got %d", level)
 	}
 
-	minSize, ok := configInt(cfg["min_size"])
-	if !ok {
-		return 0, 0, nil, fmt.Errorf("expected min_size for gzip config")
+	minSize := defaultGzipMinSize
+	if raw, present := cfg["min_size"]; present {
+		configured, ok := configInt(raw)
+		if !ok {
+			return 0, 0, nil, fmt.Errorf("expected min_size for gzip config")
+		}
+		minSize = configured
 	}
 
 	rawTypes, ok := cfg["content_types"].([]interface{})
